@@ -1,5 +1,6 @@
 import Frp.Driver.Proto
 import Frp.Props.C07
+import Frp.Props.C07Conn
 /-
   Driver engine "httpauth" (C07): replays the harness trace on Frp/Model/HttpAuth.lean and evaluates
   the C07 predicates on the implementation's answers.
@@ -21,21 +22,29 @@ structure HttpAuthState where
   T : Table := { R := Router.empty, creds := [] }
   M : Table := { R := Router.empty, creds := [] }
   wq : List WebItem := []             -- web requests queued by `wq`, answered at the next `wflush`
+  TM : TmState := TmState.empty       -- the tcpmux muxer with the proxies run on it (`tpx` / `tclose`)
+  tsh : Str := []                     -- its subDomainHost (`treset`)
 
 /-- "-" | "m<k>" ↦ none ; "b<k>:<hexu>:<hexp>" ↦ some (u, p) ; "r<hexvalue>" ↦ the parse of the raw value ;
     anything else ↦ malformed token -/
-def parseAuthTok (t : String) : Option (Option (Str × Str)) :=
+def parseAuthTokT (trim : Bool) (t : String) : Option (Option (Str × Str)) :=
   if t = "-" then some none
   else if t.startsWith "m" then some none
   else if t.startsWith "r" then
     -- the header value byte for byte (`req`, `mreq`: sent over TCP, so textproto trims it); parsed by
     -- net/http `parseBasicAuth` / frp's copies of it (vhost.parseBasicAuth, httppkg.ParseBasicAuth)
-    (unhx (t.drop 1).toString).map (fun v => WebAuth.parseBasicAuth (WebAuth.trimWsp v))
+    (unhx (t.drop 1).toString).map (fun v => WebAuth.parseBasicAuth (if trim then WebAuth.trimWsp v else v))
   else match t.splitOn ":" with
     | [_, u, p] => match unhx u, unhx p with
       | some u, some p => some (some (u, p))
       | _, _ => none
     | _ => none
+
+/-- header values that travel in an HTTP/1.x message (textproto trims them) -/
+def parseAuthTok (t : String) : Option (Option (Str × Str)) := parseAuthTokT true t
+
+/-- header values that travel in an HTTP/2 header block (hpack: byte for byte, nothing is trimmed) -/
+def parseAuthTokH2 (t : String) : Option (Option (Str × Str)) := parseAuthTokT false t
 
 def respString : Resp → String
   | .unauthorized => "401"
@@ -146,6 +155,81 @@ def webStep (qs : List WebItem) (impl : String) : Verdict :=
   let prop := (qs.zip obs).all (fun x => webProp x.1 x.2)
   verdictOf (render ms) (render obs) (some prop)
 
+
+/-! ### h2c connections and server-side tcpmux proxies -/
+
+/-- the streams of an `h2c` op: groups of <host> <path> <auth> <pauth>; `none` = malformed; the flag says
+    whether every stream lies inside the modelled syntax -/
+def parseStreams : List String → Option (List WireReq × Bool)
+  | [] => some ([], true)
+  | h :: p :: a' :: pa :: rest =>
+    match unhx h, unhx p, parseAuthTokH2 a', parseAuthTokH2 pa, parseStreams rest with
+    | some h, some p, some a, some pa, some (ws, ok) =>
+      -- a value that textproto would trim is outside the domain: frps sees it as sent, the HTTP/1.1 backend trimmed
+      some ({ host := h, proxied := false, target := p, auth := a, pauth := pa } :: ws,
+            ok && targetInDomain "o" p && parseAuthTok a' == some a)
+    | _, _, _, _, _ => none
+  | _ => none
+
+/-- `fwd:<id>`, with "!" appended when the backend of route `id` is protected and the request it received did not
+    carry its exact credentials (the harness's backends report that themselves) -/
+def fwdString (T : Table) (id : Nat) (auth : Option (Str × Str)) : String :=
+  s!"fwd:{id}" ++ (if decide (C07.CredsOK T id auth) then "" else "!")
+
+def streamRespString (T : Table) (w : WireReq) : StreamResp → String
+  | .rst => "rst"
+  | .resp (.forward id) => fwdString T id w.auth
+  | .resp r => respString r
+
+def dropBang (s : String) : String := if s.endsWith "!" then (s.dropEnd 1).toString else s
+
+/-- an observed stream answer; anything the predicate does not speak about ("cut", other status codes)
+    counts as "no backend answered" -/
+def parseStreamResp (s : String) : StreamResp :=
+  match parseResp (dropBang s) with
+  | some r => .resp r
+  | none => .rst
+
+def h2cRender (pri : Bool) (T : Table) (w0 : WireReq) (ws : List WireReq) (m : Option (Resp × List StreamResp)) : String :=
+  match m with
+  | none => "st:400;-"
+  | some (first, rs) =>
+    let f := match first with
+      | .forward id => if pri then "pri" else fwdString T id w0.auth
+      | r => respString r
+    f ++ ";" ++ (if rs.isEmpty then "-" else ",".intercalate ((ws.zip rs).map (fun p => streamRespString T p.1 p.2)))
+
+def tmList (t : String) : Option (List Str) :=
+  if t = "-" then some [] else (t.splitOn ",").mapM unhx
+
+def tmBar : Nat := 124   -- '|'
+
+def tmInsert (x : Str) : List Str → List Str
+  | [] => [x]
+  | y :: ys => if x < y ∨ x = y then x :: y :: ys else y :: tmInsert x ys
+
+def tmSort (l : List Str) : List Str := l.foldr tmInsert []
+
+/-- every listener stored at the muxer, rendered as the harness renders the real ones:
+    name|routeByHTTPUser|username|password of the listener object behind each stored route -/
+def tmView (S : TmState) : String :=
+  let routes := ((S.T.R.tbl.map (·.1)).eraseDups).flatMap (fun k => S.T.R k.1 k.2)
+  let rows := routes.map (fun r =>
+    match S.recs.lookup r.payload with
+    | some rec => rec.l.name ++ tmBar :: rec.l.routeByHTTPUser ++ tmBar :: rec.l.username ++ tmBar :: rec.l.password
+    | none => r.domain ++ tmBar :: r.user ++ [tmBar, 63, tmBar, 63])
+  if rows.isEmpty then "-" else ",".intercalate ((tmSort rows).map hx)
+
+/-- SPEC side of `tview`: what the LIVE proxies' configurations demand — for every running proxy and every
+    one of its domains a listener with username = httpUser, password = httpPassword,
+    routeByHTTPUser = routeByHTTPUser (cf. `C07.tmListeners_fields`) -/
+def tmSpecView (sh : Str) (S : TmState) : String :=
+  let rows := S.live.flatMap (fun h =>
+    let c := h.2.1
+    ((c.domains.filter (fun d => !d.isEmpty)) ++ (if c.sub = [] then [] else [c.sub ++ Str.dot :: sh])).map (fun d =>
+      d ++ tmBar :: c.routeUser ++ tmBar :: c.httpUser ++ tmBar :: c.httpPwd))
+  if rows.isEmpty then "-" else ",".intercalate ((tmSort rows).map hx)
+
 def plActString : PlAct → String
   | .refuseClose => "rc"
   | .challenge => "ch"
@@ -210,6 +294,65 @@ def httpAuthStep (st : HttpAuthState) (tok : List String) (impl : String) : Http
         else some true
       (st, verdictOf ms impl prop)
     | _, _ => (st, .bad "mreq")
+  | "h2c" :: form :: h :: p :: a :: pa :: rest =>
+    -- ONE connection: the opening request (o / a: HTTP/1.1 + Upgrade: h2c, p: prior-knowledge preface) and the
+    -- streams sent on it afterwards; impl = <first>;<stream>,<stream>…
+    match unhx h, unhx p, parseAuthTok a, parseAuthTok pa, parseStreams rest with
+    | some h, some p, some a, some pa, some (ws, okws) =>
+      let pri := form == "p"
+      let w0 : WireReq := if pri then priWire else { host := h, proxied := form == "a", target := p, auth := a, pauth := pa }
+      if !(okws && (pri || targetInDomain form p)) then (st, .skip "request target outside the modelled syntax") else
+      let m := h2cConn h2cStreamsChecked st.T w0 ws
+      match impl.splitOn ";" with
+      | [f, ss] =>
+        let first : Option Resp := if f == "pri" then none else parseResp (dropBang f)
+        let rs := if ss == "-" then [] else (ss.splitOn ",").map parseStreamResp
+        (st, verdictOf (h2cRender pri st.T w0 ws m) impl (some (C07.h2cHoldsOn st.T w0 ws first rs)))
+      | _ => (st, verdictOf (h2cRender pri st.T w0 ws m) impl)
+    | _, _, _, _, _ => (st, .bad "h2c")
+  | ["treset", sh] =>
+    match unhx sh with
+    | some sh => ({ st with TM := TmState.empty, tsh := sh }, verdictOf "-" impl)
+    | none => (st, .bad "treset")
+  | ["tpx", id, doms, sub, ru, u, p] =>
+    -- the real proxy.NewProxy(tcpmux).Run() on the real muxer
+    match id.toNat?, tmList doms, unhx sub, unhx ru, unhx u, unhx p with
+    | some id, some doms, some sub, some ru, some u, some p =>
+      let (TM', res) := tmRun st.tsh st.TM id { domains := doms, sub := sub, routeUser := ru, httpUser := u, httpPwd := p }
+      ({ st with TM := TM' },
+       verdictOf (match res with | .ok => "ok" | .busy => "busy" | .conflict => "conflict") impl)
+    | _, _, _, _, _, _ => (st, .bad "tpx")
+  | ["tclose", id] =>
+    match id.toNat? with
+    | some id => ({ st with TM := tmClose st.TM id }, verdictOf "-" impl)
+    | none => (st, .bad "tclose")
+  | ["tconn", h, pa] =>
+    -- a real CONNECT to the muxer; acc:<id> = proxy <id> was asked for a work connection
+    match unhx h, parseAuthTok pa with
+    | some h, some pa =>
+      let q : ConnectReq := { host := canon (h ++ Str.ofString ":443"), pauth := pa }
+      let ms := match tmHandle st.TM q with
+        | .notFound => "404"
+        | .proxyAuthRequired => "407"
+        | .accept n => match st.TM.recs.lookup n with
+          | some rec => s!"acc:{rec.owner}"
+          | none => "acc:?"
+      let prop : Option Bool :=
+        if impl.startsWith "acc:" then
+          match (impl.drop 4).toString.toNat? with
+          | some id =>
+            match st.TM.live.lookup id with
+            | some (c, _) => some (C07.tmHoldsOn c q.pauth)
+            | none => none
+          | none => none
+        else some true
+      (st, verdictOf ms impl prop)
+    | _, _ => (st, .bad "tconn")
+  | ["tview"] =>
+    -- the listeners at the muxer with their credential fields; the property clause "every listener of a live
+    -- proxy carries the proxy's httpUser / httpPassword / routeByHTTPUser, each in its own field" is evaluated
+    -- on the implementation's own dump
+    (st, verdictOf (tmView st.TM) impl (some (impl == tmSpecView st.tsh st.TM)))
   | ["mw", u, p, a] =>
     -- the real middleware in front of a recording handler; the model starts from the header bytes
     match unhx u, unhx p, authTokHeader a with
